@@ -34,7 +34,7 @@ Fixpoint append_sel (self other : sel) : ares sel :=
            if comp_cant_append c then AErr
            else match comp_append (s_comp self) c with
                 | Ok a => AOk (Sel (s_rel self) a)
-                | Panic => AErr                       (* here the ParseError is propagated as an error *)
+                | Fail => AErr                        (* the ParseError is propagated as an error *)
                 | Unmodelled => AUnmodelled
                 end
        end.
